@@ -706,4 +706,7 @@ def run(ctx):
     # the stream is attempted in every dump: its writer is on every success path of generate_dump (same rule instance as C01/every-stream-attempted)
     from rules import c01 as _c01
     _c01.rule_stream_attempted(ctx, R="C04/stream-attempted", only=("thread_list_stream::write",))
+    # the crashing thread's recorded context is the supplied one, register for register, for every 64-bit pattern (same rule instance as C05/greg-map)
+    from rules import c05 as _c05
+    _c05.rule_greg_map(ctx, R="C04/crash-thread-registers")
 
